@@ -35,6 +35,7 @@ def run(tier="quick"):
     npop = R.check_parse_line_stack(chk, u)
     nh = R.check_handler_protocol(chk, u)
     np4 = R.check_parse_close_before_pop(chk, u)
+    R.check_null_literal_args(chk, prog, u, "P5")
     diags = facts.clang_diagnostics(warn_flags=["-Wuninitialized", "-Wsometimes-uninitialized"], units=["conf.c"])
     for unit, fpath, line, col, flag, msg in diags:
         chk.ob("I1", "conf.c", "uninit:%s" % msg.split("'")[1] if "'" in msg else msg[:30], False, loc="src/%s:%d" % (fpath, line),
